@@ -104,6 +104,7 @@ impl<T> Sender<T> {
                     drop(c);
                     rt::emit(SeamEvent::ChanSend { chan: self.sh.id, tid: rt::current_tid(), len_after: len });
                     rt::wake_all(Obj::ChanRecv(self.sh.id));
+                    rt::wake_all(Obj::Select);
                     return Ok(());
                 }
             }
@@ -119,6 +120,7 @@ impl<T> Sender<T> {
                     drop(c);
                     rt::emit(SeamEvent::ChanSend { chan: self.sh.id, tid: rt::current_tid(), len_after: len });
                     rt::wake_all(Obj::ChanRecv(self.sh.id));
+                    rt::wake_all(Obj::Select);
                     return Ok(());
                 }
                 drop(c);
@@ -145,6 +147,7 @@ impl<T> Sender<T> {
         drop(c);
         rt::emit(SeamEvent::ChanSend { chan: self.sh.id, tid: rt::current_tid(), len_after: len });
         rt::wake_all(Obj::ChanRecv(self.sh.id));
+                    rt::wake_all(Obj::Select);
         Ok(())
     }
 
@@ -184,6 +187,7 @@ impl<T> Drop for Sender<T> {
         };
         if last {
             rt::wake_all(Obj::ChanRecv(self.sh.id));
+                    rt::wake_all(Obj::Select);
         }
     }
 }
@@ -203,6 +207,7 @@ impl<T> Receiver<T> {
                     drop(c);
                     rt::emit(SeamEvent::ChanRecv { chan: self.sh.id, tid: rt::current_tid(), len_after: len });
                     rt::wake_all(Obj::ChanSend(self.sh.id));
+                    rt::wake_all(Obj::Select);
                     return Ok(m);
                 }
                 if c.senders == 0 {
@@ -215,6 +220,7 @@ impl<T> Receiver<T> {
             // a rendezvous sender may go ahead while we wait
             self.sh.st.lock().unwrap().recv_waiting += 1;
             rt::wake_all(Obj::ChanSend(self.sh.id));
+                    rt::wake_all(Obj::Select);
             let woke = rt::block(Obj::ChanRecv(self.sh.id), deadline_ns);
             {
                 let mut c = self.sh.st.lock().unwrap();
@@ -228,6 +234,7 @@ impl<T> Receiver<T> {
                     drop(c);
                     rt::emit(SeamEvent::ChanRecv { chan: self.sh.id, tid: rt::current_tid(), len_after: len });
                     rt::wake_all(Obj::ChanSend(self.sh.id));
+                    rt::wake_all(Obj::Select);
                     return Ok(m);
                 }
                 return Err(RecvTimeoutError::Timeout);
@@ -256,6 +263,7 @@ impl<T> Receiver<T> {
             drop(c);
             rt::emit(SeamEvent::ChanRecv { chan: self.sh.id, tid: rt::current_tid(), len_after: len });
             rt::wake_all(Obj::ChanSend(self.sh.id));
+                    rt::wake_all(Obj::Select);
             return Ok(m);
         }
         if c.senders == 0 {
@@ -332,6 +340,7 @@ impl<T> Drop for Receiver<T> {
             };
             drop(drained);
             rt::wake_all(Obj::ChanSend(self.sh.id));
+                    rt::wake_all(Obj::Select);
         }
     }
 }
@@ -418,6 +427,26 @@ impl<T> From<SendError<T>> for TrySendError<T> {
         TrySendError::Disconnected(err.0)
     }
 }
+impl<T> SendTimeoutError<T> {
+    pub fn into_inner(self) -> T {
+        match self {
+            SendTimeoutError::Timeout(v) | SendTimeoutError::Disconnected(v) => v,
+        }
+    }
+    pub fn is_timeout(&self) -> bool {
+        matches!(self, SendTimeoutError::Timeout(_))
+    }
+    pub fn is_disconnected(&self) -> bool {
+        matches!(self, SendTimeoutError::Disconnected(_))
+    }
+}
+
+impl<T> From<SendError<T>> for SendTimeoutError<T> {
+    fn from(e: SendError<T>) -> Self {
+        SendTimeoutError::Disconnected(e.0)
+    }
+}
+
 impl<T> TrySendError<T> {
     pub fn into_inner(self) -> T {
         match self {
@@ -487,5 +516,146 @@ impl RecvTimeoutError {
     }
     pub fn is_disconnected(&self) -> bool {
         matches!(self, RecvTimeoutError::Disconnected)
+    }
+}
+
+
+// ---------------------------------------------------------------------------------------------
+// crossbeam's Select (dynamic selection over several channel operations)
+
+/// what a Select needs to know about a registered channel end
+pub trait SelectHandle {
+    /// the operation could complete now (or the channel is disconnected)
+    fn sel_ready(&self) -> bool;
+}
+
+impl<T> SelectHandle for Receiver<T> {
+    fn sel_ready(&self) -> bool {
+        let c = self.sh.st.lock().unwrap();
+        !c.q.is_empty() || c.senders == 0
+    }
+}
+
+impl<T> SelectHandle for Sender<T> {
+    fn sel_ready(&self) -> bool {
+        let c = self.sh.st.lock().unwrap();
+        !c.full() || c.receivers == 0
+    }
+}
+
+pub struct Select<'a> {
+    ops: Vec<&'a dyn SelectHandle>,
+}
+
+#[derive(Debug, PartialEq, Eq, Clone, Copy)]
+pub struct TrySelectError;
+#[derive(Debug, PartialEq, Eq, Clone, Copy)]
+pub struct SelectTimeoutError;
+#[derive(Debug, PartialEq, Eq, Clone, Copy)]
+pub struct TryReadyError;
+#[derive(Debug, PartialEq, Eq, Clone, Copy)]
+pub struct ReadyTimeoutError;
+
+pub struct SelectedOperation<'a> {
+    index: usize,
+    _m: std::marker::PhantomData<&'a ()>,
+}
+
+impl<'a> Select<'a> {
+    pub fn new() -> Select<'a> {
+        Select { ops: vec![] }
+    }
+    pub fn recv<T>(&mut self, r: &'a Receiver<T>) -> usize {
+        self.ops.push(r);
+        self.ops.len() - 1
+    }
+    pub fn send<T>(&mut self, s: &'a Sender<T>) -> usize {
+        self.ops.push(s);
+        self.ops.len() - 1
+    }
+    pub fn remove(&mut self, index: usize) {
+        // keep indices stable: a removed operation is never ready
+        struct Never;
+        impl SelectHandle for Never {
+            fn sel_ready(&self) -> bool {
+                false
+            }
+        }
+        static NEVER: Never = Never;
+        self.ops[index] = &NEVER;
+    }
+
+    /// among the ready operations one is picked "at random": here from the scheduler's step count
+    fn pick(&self) -> Option<usize> {
+        let ready: Vec<usize> = (0..self.ops.len()).filter(|&i| self.ops[i].sel_ready()).collect();
+        if ready.is_empty() {
+            None
+        } else {
+            Some(ready[(rt::steps() as usize) % ready.len()])
+        }
+    }
+
+    fn wait(&mut self, deadline_ns: Option<u64>) -> Option<usize> {
+        rt::point(Op::ChanRecv);
+        loop {
+            if let Some(i) = self.pick() {
+                return Some(i);
+            }
+            if !rt::in_sim() {
+                panic!("simrt channel: blocking select outside a simulation");
+            }
+            if self.ops.is_empty() && deadline_ns.is_none() {
+                // crossbeam blocks for ever
+                rt::block(Obj::Select, None);
+                continue;
+            }
+            if rt::block(Obj::Select, deadline_ns) == Wake::TimedOut {
+                return self.pick();
+            }
+        }
+    }
+
+    pub fn try_select(&mut self) -> Result<SelectedOperation<'a>, TrySelectError> {
+        rt::point(Op::ChanRecv);
+        self.pick().map(|index| SelectedOperation { index, _m: std::marker::PhantomData }).ok_or(TrySelectError)
+    }
+    pub fn select(&mut self) -> SelectedOperation<'a> {
+        let index = self.wait(None).expect("select without deadline returned nothing");
+        SelectedOperation { index, _m: std::marker::PhantomData }
+    }
+    pub fn select_timeout(&mut self, d: Duration) -> Result<SelectedOperation<'a>, SelectTimeoutError> {
+        let dl = rt::now_ns().saturating_add(d.as_nanos().min(u64::MAX as u128) as u64);
+        self.wait(Some(dl)).map(|index| SelectedOperation { index, _m: std::marker::PhantomData }).ok_or(SelectTimeoutError)
+    }
+    pub fn try_ready(&mut self) -> Result<usize, TryReadyError> {
+        rt::point(Op::ChanRecv);
+        self.pick().ok_or(TryReadyError)
+    }
+    pub fn ready(&mut self) -> usize {
+        self.wait(None).expect("ready without deadline returned nothing")
+    }
+    pub fn ready_timeout(&mut self, d: Duration) -> Result<usize, ReadyTimeoutError> {
+        let dl = rt::now_ns().saturating_add(d.as_nanos().min(u64::MAX as u128) as u64);
+        self.wait(Some(dl)).ok_or(ReadyTimeoutError)
+    }
+}
+
+impl<'a> Default for Select<'a> {
+    fn default() -> Self {
+        Select::new()
+    }
+}
+
+impl<'a> SelectedOperation<'a> {
+    pub fn index(&self) -> usize {
+        self.index
+    }
+    /// completes the selected receive (should another consumer have taken the item meanwhile,
+    /// this waits for the next one)
+    pub fn recv<T>(self, r: &Receiver<T>) -> Result<T, RecvError> {
+        r.recv()
+    }
+    pub fn send<T>(self, s: &Sender<T>, msg: T) -> Result<(), SendError<T>> {
+        s.send(msg)
     }
 }
